@@ -103,9 +103,14 @@ def c_cfg(cfg):
                    "hookname * nat")
     hcs = clist(["(%s, %s, [(%s, %s)])" % (HOOK_COQ[h], cnat(key_id(h, str(k))), cnat(cid), cbool(r))
                  for h, k, cid, r in cfg.get("hook_cleanups", [])], "hookname * nat * list (nat * bool)")
+    expr, stop = cfg.get("expr"), cfg.get("stop")
+    if cfg.get("wip_mode"):
+        # --wip: the expression in force is (--tags ...) and wip; the run stops at the first failure
+        expr = ["has", "wip"] if expr is None else ["and", (expr[2] if expr[0] == "raw" else expr), ["has", "wip"]]
+        stop = True
     return "(mkCfgData %s %s %s %s %s %s %s %s %s)" % (
-        cbool(cfg.get("dry_run")), cbool(cfg.get("stop")), cbool(cfg.get("show_skipped")),
-        c_expr(cfg.get("expr")), clist([HOOK_COQ[h] for h in cfg.get("hooks", [])], "hookname"),
+        cbool(cfg.get("dry_run")), cbool(stop), cbool(cfg.get("show_skipped")),
+        c_expr(expr), clist([HOOK_COQ[h] for h in cfg.get("hooks", [])], "hookname"),
         faults, hcs, cnat(WIP), cbool(cfg.get("continue_after_failed", False)))
 
 
